@@ -731,9 +731,9 @@ class Interp:
 
     def _watch_lists(self, s, spec, fr):
         """Lists held in local variables that the loop is NOT declared to change (no assignment / mutating method
-        call in its body, not in `modifies`): their contents must be the same object after one symbolic iteration.
-        A list changed behind the loop analysis's back (e.g. by a callee whose contract has `modifies_args`) would
-        otherwise keep its loop-entry value in the 'arbitrary iteration' state, which is unsound."""
+        call in its body, not in `modifies`): a callee contract with `modifies_args` must not have replaced their
+        contents during the symbolic iteration.  Such a list is invisible to the syntactic loop analysis and would
+        keep its loop-entry value in the 'arbitrary iteration' state, which is unsound."""
         names, _attrs, mutated = self.loop_targets(s)
         declared = names | mutated | {m for m in spec.modifies if "." not in m}
         out = {}
@@ -747,8 +747,9 @@ class Interp:
 
     @staticmethod
     def _check_watched(watched, where):
+        by_callee = V.cur().ghost.get("lists_modified_by_callee", [])
         for k, (ref, seq0) in watched.items():
-            if ref.seq is not seq0:
+            if ref.seq is not seq0 and any(ref is m for m in by_callee):
                 raise Unsupported(f"loop {where} changes the list `{k}` which is not in its havoc set (add it to LoopSpec.modifies)")
 
     def s_For(self, st, s, fr):
